@@ -18,3 +18,23 @@ M("c13-subpyr-offset", "C13", ("pyramid.py", "y_eff = pos.y + self._apex.y * 2**
 M("c13-is-subtile", "C13", ("pyramid.py", "return deeper_pos.x == shallower_pos.x and deeper_pos.y == shallower_pos.y", "return deeper_pos.x == shallower_pos.x or deeper_pos.y == shallower_pos.y"))
 M("c13-ensure-levels", "C13", ("pyramid.py", "        while ipos.n >= n_before:", "        while ipos.n > n_before:"))
 M("c13-setdata-slot", "C13", ("pyramid.py", "self._levels[ppos.n][2 + 2 * iy + ix] = value", "self._levels[ppos.n][2 + 2 * ix + iy] = value"))
+
+# ---- C01
+M("c01-release-3bits", "C01", ("pyramid.py", "                if flags == 0xF:\n                    readiness.pop(ppos)", "                if bin(flags).count('1') >= 3:\n                    readiness.pop(ppos, None)"))
+M("c01-put-before-cb", "C01", ("pyramid.py", "        callback(pos)\n        done_queue.put(pos)", "        done_queue.put(pos)\n        callback(pos)"))
+M("c01-bit-swapped", "C01", ("pyramid.py", "                bit_num = 2 * y_index + x_index", "                bit_num = 2 * x_index + y_index"))
+M("c01-seed-dead", "C01", ("pyramid.py", "            if pos.n == self.depth - 1 and is_live:\n                ready_queue.put(pos)", "            if pos.n == self.depth - 1:\n                ready_queue.put(pos)"))
+M("c01-stop-n0", "C01", ("pyramid.py", "                if pos == self._apex:\n                    break", "                if pos.n == 0:\n                    break"))
+M("c01-exit-first-empty", "C01", ("pyramid.py", """            pos = ready_queue.get(True, timeout=1)
+        except Empty:
+            if done_event.is_set():
+                break
+            continue
+
+        callback(pos)""", """            pos = ready_queue.get(True, timeout=1)
+        except Empty:
+            break
+
+        callback(pos)"""))
+M("c01-prereadied-mirrored", "C01", ("pyramid.py", "                        pre_readied |= 1 << i", "                        pre_readied |= 1 << (3 - i)"))
+M("c01-serial-live-and", "C01", ("pyramid.py", "                    is_live = data[0] or data[1] or data[2] or data[3]\n\n                    if is_live:\n                        callback(pos)", "                    is_live = data[0] or data[1] or data[2] or data[3]\n\n                    if data[0] or data[3] or pos.n < self.depth - 1 and is_live:\n                        callback(pos)"))
